@@ -39,3 +39,245 @@ func H_C18_sort() {
 	VAssert(tb.Len() == n, "sort: length unchanged")
 	VReach("end")
 }
+
+// listModel operations of the Lua 5.1 manual on a Go slice of numbers
+func c18Check(L *LState, tb *LTable, model []float64, label string) {
+	VAssert(tb.Len() == len(model), label+": length")
+	VAssert(L.ObjLen(tb) == len(model), label+": # operator")
+	for i, v := range model {
+		VAssert(sameValue(tb.RawGetInt(i+1), LNumber(v)), label+": element")
+	}
+	VAssert(tb.RawGetInt(len(model)+1) == LNil, label+": nothing after the last element")
+}
+
+// C18.listops — insert/remove/concat/maxn/getn/unpack on a list, with symbolic positions.
+//
+//verif:harness prop=C18 tier=quick qparams=steps:2 tparams=steps:3 bounds="list of n<=3 symbolic numbers; histories of steps (2 quick / 3 thorough) operations from {insert(t,v), insert(t,pos,v) with 1<=pos<=n+1, remove(t), remove(t,pos) with 1<=pos<=n, t[n+1]=v, t[n]=nil}; pos symbolic; then concat/maxn/getn/unpack checked"
+func H_C18_listops() {
+	L := newL(Options{}, BaseLibName, TabLibName)
+	tabmod := L.GetGlobal("table")
+	n := VChoice(4)
+	tb := L.NewTable()
+	var model []float64
+	for i := 0; i < n; i++ {
+		v := float64(VI32("e"))
+		model = append(model, v)
+		tb.RawSetInt(i+1, LNumber(v))
+	}
+	call := func(fn string, nret int, args ...LValue) []LValue {
+		base := L.GetTop()
+		L.Push(L.GetField(tabmod, fn))
+		for _, a := range args {
+			L.Push(a)
+		}
+		err := L.PCall(len(args), nret, nil)
+		VAssert(err == nil, "listops: table."+fn+" succeeds for arguments in the documented range")
+		var out []LValue
+		for i := base + 1; i <= L.GetTop(); i++ {
+			out = append(out, L.Get(i))
+		}
+		L.SetTop(base)
+		return out
+	}
+	steps := VParam("steps", 2)
+	for s := 0; s < steps; s++ {
+		ln := len(model)
+		switch VChoice(6) {
+		case 0: // append
+			v := float64(VI32("v"))
+			call("insert", 0, tb, LNumber(v))
+			model = append(model, v)
+			c18Check(L, tb, model, "insert(t, v)")
+		case 1: // insert at pos
+			v := float64(VI32("v"))
+			pos := int(VI32("pos"))
+			VAssume(VAnd(pos >= 1, pos <= ln+1))
+			call("insert", 0, tb, LNumber(pos), LNumber(v))
+			pos = VConc(pos)
+			model = append(model, 0)
+			copy(model[pos:], model[pos-1:])
+			model[pos-1] = v
+			c18Check(L, tb, model, "insert(t, pos, v)")
+		case 2: // remove last
+			r := call("remove", 1, tb)
+			if ln == 0 {
+				VAssert(r[0] == LNil, "remove(t) on an empty list returns nil")
+			} else {
+				VAssert(sameValue(r[0], LNumber(model[ln-1])), "remove(t) returns the last element")
+				model = model[:ln-1]
+			}
+			c18Check(L, tb, model, "remove(t)")
+		case 3: // remove at pos
+			if ln == 0 {
+				continue
+			}
+			pos := int(VI32("pos"))
+			VAssume(VAnd(pos >= 1, pos <= ln))
+			r := call("remove", 1, tb, LNumber(pos))
+			pos = VConc(pos)
+			VAssert(sameValue(r[0], LNumber(model[pos-1])), "remove(t, pos) returns the removed element")
+			model = append(model[:pos-1:pos-1], model[pos:]...)
+			c18Check(L, tb, model, "remove(t, pos)")
+		case 4: // direct assignment extending the list
+			v := float64(VI32("v"))
+			L.SetTable(tb, LNumber(ln+1), LNumber(v))
+			model = append(model, v)
+			c18Check(L, tb, model, "t[n+1] = v")
+		case 5: // direct assignment shrinking the list
+			if ln == 0 {
+				continue
+			}
+			L.SetTable(tb, LNumber(ln), LNil)
+			model = model[:ln-1]
+			c18Check(L, tb, model, "t[n] = nil")
+		}
+	}
+	ln := len(model)
+	VAssert(call("getn", 1, tb)[0] == LNumber(ln), "getn is the list length")
+	VAssert(call("maxn", 1, tb)[0] == LNumber(ln), "maxn of a list is its length")
+	// unpack(t, i, j)
+	L.Push(L.GetGlobal("unpack"))
+	L.Push(tb)
+	base := L.GetTop() - 2
+	VAssert(L.PCall(1, MultRet, nil) == nil, "unpack(t) succeeds")
+	VAssert(L.GetTop()-base == ln, "unpack(t) returns every element")
+	for i := 0; i < ln && i < L.GetTop()-base; i++ {
+		VAssert(sameValue(L.Get(base+1+i), LNumber(model[i])), "unpack(t) returns the elements in order")
+	}
+	L.SetTop(base)
+	VReach("end")
+}
+
+// C18.concat — table.concat(t, sep, i, j) on a list of strings.
+//
+//verif:harness prop=C18 tier=quick bounds="list of n<=3 one-byte symbolic strings, 1-byte symbolic separator, i and j symbolic in [1, n] (and defaults)"
+func H_C18_concat() {
+	L := newL(Options{}, BaseLibName, TabLibName)
+	n := VChoice(4)
+	tb := L.NewTable()
+	var model []string
+	for i := 0; i < n; i++ {
+		s := VStr("e", 1)
+		model = append(model, s)
+		tb.RawSetInt(i+1, LString(s))
+	}
+	sep := VStr("sep", 1)
+	mode := VChoice(3)
+	i, j := 1, n
+	args := []LValue{tb, LString(sep)}
+	if mode >= 1 {
+		i = int(VI32("i"))
+		VAssume(VAnd(i >= 1, i <= n+1))
+		args = append(args, LNumber(i))
+		i = VConc(i)
+	}
+	if mode == 2 {
+		j = int(VI32("j"))
+		VAssume(VAnd(j >= 0, j <= n))
+		args = append(args, LNumber(j))
+		j = VConc(j)
+	}
+	L.Push(L.GetField(L.GetGlobal("table"), "concat"))
+	for _, a := range args {
+		L.Push(a)
+	}
+	err := L.PCall(len(args), 1, nil)
+	VAssert(err == nil, "concat: succeeds for positions inside the list")
+	want := ""
+	for k := i; k <= j; k++ {
+		want += model[k-1]
+		if k != j {
+			want += sep
+		}
+	}
+	got, ok := L.Get(-1).(LString)
+	VAssert(ok && string(got) == want, "concat: t[i]..sep..t[i+1] ... sep..t[j]")
+	VReach("end")
+}
+
+// C18.sortcmp — table.sort with comparators: truthy non-boolean results, descending order,
+// inconsistent answers, failing comparator.
+//
+//verif:harness prop=C18 tier=quick qparams=n:3 tparams=n:4 bounds="n<=3 (quick) / 4 (thorough) symbolic 32-bit integer elements; comparator kinds: a<b and 0 (truthy non-boolean), a>b, Go comparator answering fresh symbolic booleans (arbitrary relation), comparator failing on its k-th call (k symbolic)"
+func H_C18_sortcmp() {
+	L := newL(Options{}, BaseLibName, TabLibName)
+	n := VChoice(VParam("n", 3) + 1)
+	tb := L.NewTable()
+	in := make([]float64, n)
+	for i := 0; i < n; i++ {
+		in[i] = float64(VI32("e"))
+		tb.RawSetInt(i+1, LNumber(in[i]))
+	}
+	kind := VChoice(4)
+	calls := 0
+	failAt := 0
+	var cmp LValue
+	switch kind {
+	case 0:
+		VAssert(L.DoString("cmp = function(a, b) return a < b and 0 end") == nil, "sortcmp: define")
+		cmp = L.GetGlobal("cmp")
+	case 1:
+		VAssert(L.DoString("cmp = function(a, b) return a > b end") == nil, "sortcmp: define")
+		cmp = L.GetGlobal("cmp")
+	case 2, 3:
+		if kind == 3 {
+			failAt = 1 + VChoice(3)
+		}
+		cmp = L.NewFunction(func(L *LState) int {
+			calls++
+			a, ok1 := L.Get(1).(LNumber)
+			b, ok2 := L.Get(2).(LNumber)
+			VAssert(ok1 && ok2, "sortcmp: the comparator is called with two elements")
+			seenA, seenB := false, false
+			for _, v := range in {
+				seenA = VOr(seenA, float64(a) == v)
+				seenB = VOr(seenB, float64(b) == v)
+			}
+			VAssert(VAnd(seenA, seenB), "sortcmp: the comparator only ever sees elements of t")
+			if kind == 3 && calls == failAt {
+				L.RaiseError("comparator failed")
+			}
+			if VBool("lt") {
+				L.Push(LTrue)
+			} else {
+				L.Push(LFalse)
+			}
+			return 1
+		})
+	}
+	L.Push(L.GetField(L.GetGlobal("table"), "sort"))
+	L.Push(tb)
+	L.Push(cmp)
+	err := L.PCall(2, 0, nil)
+	VAssert(calls <= 40, "sortcmp: the number of comparator calls is bounded")
+	if kind == 3 && err != nil {
+		VReach("comparator-error")
+	} else {
+		VAssert(err == nil, "sortcmp: sort with a total comparator does not fail")
+	}
+	out := make([]float64, n)
+	for i := 0; i < n; i++ {
+		v, ok := tb.RawGetInt(i + 1).(LNumber)
+		VAssert(ok, "sortcmp: elements stay numbers")
+		out[i] = float64(v)
+	}
+	for i := 0; i < n; i++ {
+		ci, co := 0, 0
+		for j := 0; j < n; j++ {
+			ci = VIteI(in[j] == in[i], ci+1, ci)
+			co = VIteI(out[j] == in[i], co+1, co)
+		}
+		VAssert(ci == co, "sortcmp: the result is a permutation of the original elements")
+	}
+	if err == nil {
+		for i := 0; i+1 < n; i++ {
+			switch kind {
+			case 0:
+				VAssert(out[i] <= out[i+1], "sortcmp: ordered by a comparator returning a truthy non-boolean")
+			case 1:
+				VAssert(out[i] >= out[i+1], "sortcmp: ordered by the descending comparator")
+			}
+		}
+	}
+	VReach("end")
+}
